@@ -373,3 +373,29 @@ def c16(run):
     run.model_check("MC_StructOps", cfg=tier_n(run, "MC_StructOps.cfg", "MC_StructOps_thorough.cfg"), timeout=3000)
     family_enumerated(run, "struct", "Gen_StructOps", "Trace_StructOps", gen_cfg=tier_n(run, "Gen_StructOps.cfg", "Gen_StructOps_thorough.cfg"))
     family_random(run, "struct", "Trace_StructOps", tier_n(run, 1500, 60000))
+
+FAMILY_MODULE["equal"] = "Trace_Equality"
+
+
+def _canary_equal(e):
+    if e["kind"] != "pair":
+        return None
+    e["eqio"] = not e["eqio"]
+    e["eqiorev"] = e["eqio"]
+    return e
+
+
+CANARY["equal"] = _canary_equal
+
+
+@prop("C18")
+def c18(run):
+    run.assumptions += ["closed LineStrings in the families are simple (rings), so 'closed' decides whether rotation is ignored; "
+                        "ToleranceXY is decided on integer vertices (t^2 integer)"]
+    run.extra_cov = {"rule": "every (base, variant) pair of the TLC family (reorderings: all member / hole permutations incl. duplicate "
+                             "members, ring rotations and reversals, line reversal; single differences: one ordinate by one ulp at "
+                             "magnitudes subnormal..1e300, one member dropped or emptied, coordinate type, Point vs MultiPoint); random "
+                             "pairs (same / reordered / reordered + one ulp / one ulp) over all float classes; ToleranceXY pairs"}
+    run.model_check("MC_Equality", timeout=1800)
+    family_enumerated(run, "equal", "Gen_Equality", "Trace_Equality")
+    family_random(run, "equal", "Trace_Equality", tier_n(run, 6000, 300000))
